@@ -56,6 +56,7 @@ type OResp struct {
 	TStart   time.Duration // upstream call entered
 	TResp    time.Duration // header handed to the cache
 	Complete bool          // the wire delivers the whole body (no fault)
+	Delivered bool         // ... and the reader has in fact been handed every byte
 	SeqResp  uint64
 	Version  int
 	VarKey   string
